@@ -203,6 +203,12 @@ class Module:
             for c in ast.iter_child_nodes(p):
                 self.parents[c] = p
 
+    def reindex(self):
+        self.parents = {}
+        for p in ast.walk(self.tree):
+            for c in ast.iter_child_nodes(p):
+                self.parents[c] = p
+
     def __repr__(self):
         return f"<module {self.name}>"
 
@@ -249,6 +255,54 @@ class Project:
         for c in self.all_classes:
             for a in self.mro(c)[1:]:
                 self._subclasses.setdefault(id(a), []).append(c)
+
+    # ------------------------------------------------------- call arguments
+    def positional_args(self, call):
+        """The arguments of `call` in parameter order, keywords that name the
+        next positional parameter of every definition of the callee (by
+        name, functions and methods of the package) appended: rules read
+        arguments by position, and `f(a, name=b)` is `f(a, b)`."""
+        if not hasattr(self, "_sig_index"):
+            idx = {}
+            for m in self.modules.values():
+                for n in ast.walk(m.tree):
+                    if isinstance(n, ast.ClassDef):
+                        for fn in n.body:
+                            if isinstance(fn, ast.FunctionDef):
+                                decos = {ast.unparse(d)
+                                         for d in fn.decorator_list}
+                                idx.setdefault(fn.name, []).append((
+                                    [a.arg for a in fn.args.args],
+                                    0 if "staticmethod" in decos else 1))
+                for fn in m.tree.body:
+                    if isinstance(fn, ast.FunctionDef):
+                        idx.setdefault(fn.name, []).append((
+                            [a.arg for a in fn.args.args], 0))
+            self._sig_index = idx
+        args = list(call.args)
+        if any(isinstance(a, ast.Starred) for a in args):
+            return args
+        name = call.func.attr if isinstance(call.func, ast.Attribute) \
+            else (call.func.id if isinstance(call.func, ast.Name) else None)
+        cands = self._sig_index.get(name) if name else None
+        if not cands:
+            return args
+        kws = {k.arg: k.value for k in call.keywords if k.arg}
+        while True:
+            pname = None
+            for params, off in cands:
+                if isinstance(call.func, ast.Name):
+                    off = 0
+                i = len(args) + off
+                if i >= len(params):
+                    return args
+                if pname is None:
+                    pname = params[i]
+                elif pname != params[i]:
+                    return args
+            if pname not in kws:
+                return args
+            args.append(kws[pname])
 
     # ---------------------------------------------------------------- collect
     def _collect(self, m):
